@@ -81,6 +81,7 @@ func (g *Glyph) CurveTo(x1, y1, x2, y2, x3, y3 float64) {
 func (g *Glyph) Extent() funit.Rect16 {
 	var left, right, top, bottom float64
 	first := true
+	var posX, posY float64
 cmdLoop:
 	for _, cmd := range g.Cmds {
 		var x, y float64
@@ -91,9 +92,19 @@ cmdLoop:
 		case OpCurveTo:
 			x = cmd.Args[4]
 			y = cmd.Args[5]
+			if !first {
+				// a curve can extend beyond its end points
+				xMin, xMax := bezierRange(posX, cmd.Args[0], cmd.Args[2], x)
+				yMin, yMax := bezierRange(posY, cmd.Args[1], cmd.Args[3], y)
+				left = min(left, xMin)
+				right = max(right, xMax)
+				bottom = min(bottom, yMin)
+				top = max(top, yMax)
+			}
 		default:
 			continue cmdLoop
 		}
+		posX, posY = x, y
 		if first || x < left {
 			left = x
 		}
@@ -163,4 +174,42 @@ const (
 
 func (c GlyphOp) String() string {
 	return fmt.Sprint("cmd", c.Args, c.Op)
+}
+
+// bezierRange returns the range of values a cubic Bézier curve with the given
+// control values takes for t in [0, 1].
+func bezierRange(p0, p1, p2, p3 float64) (lo, hi float64) {
+	lo, hi = min(p0, p3), max(p0, p3)
+	if p1 >= lo && p1 <= hi && p2 >= lo && p2 <= hi {
+		// the curve stays within the convex hull of the control values
+		return lo, hi
+	}
+
+	// the derivative is 3*(a*t*t + b*t + c)
+	a := -p0 + 3*p1 - 3*p2 + p3
+	b := 2 * (p0 - 2*p1 + p2)
+	c := p1 - p0
+	var roots [2]float64
+	n := 0
+	if a == 0 {
+		if b != 0 {
+			roots[0] = -c / b
+			n = 1
+		}
+	} else if d := b*b - 4*a*c; d >= 0 {
+		sq := math.Sqrt(d)
+		roots[0] = (-b + sq) / (2 * a)
+		roots[1] = (-b - sq) / (2 * a)
+		n = 2
+	}
+	for _, t := range roots[:n] {
+		if t <= 0 || t >= 1 {
+			continue
+		}
+		s := 1 - t
+		v := s*s*s*p0 + 3*s*s*t*p1 + 3*s*t*t*p2 + t*t*t*p3
+		lo = min(lo, v)
+		hi = max(hi, v)
+	}
+	return lo, hi
 }
